@@ -187,6 +187,10 @@ def gen_world(w, n_membranes=(2, 4), small=False):
     for ci in range(len(csets)):
         if w.random() < 0.45:
             csets.append({"molar_copy_of": ci})
+    n_loaded = len([c for c in csets if not isinstance(c, dict)])
+    for ci in range(n_loaded):
+        if w.random() < 0.3:
+            csets.append({"replicate_of": ci, "factor": wg.rnd(w, 1.01, 1.2, 3)})
     spec["curve_sets"] = csets
     curves = []
     for ci in range(len(csets)):
@@ -235,7 +239,7 @@ def gen_function(w):
         # numpy warning by default; a call that leaves numpy's error state changed would turn it into an exception)
         return {"n": 2, "m": 0, "alpha": wg.logu(w, 1e-3, 1e3, 6), "a": [round(w.uniform(600, 900), 3), round(w.uniform(-50, 50), 3)],
                 "b": [round(w.uniform(-3000, 3000), 3)], "array": w.random() < 0.5}
-    return {"n": n, "m": m, "alpha": wg.logu(w, 1e-6, 1e2, 8), "a": [round(w.uniform(-4, 4), 6) for _ in range(n)],
+    return {"n": n, "m": m, "alpha": wg.logu(w, 1e-12, 1e2, 8), "a": [round(w.uniform(-4, 4), 6) for _ in range(n)],
             "b": [round(w.uniform(-3000, 6000), 4) for _ in range(m + 1)], "array": w.random() < 0.5}
 
 
@@ -280,7 +284,7 @@ class Meta:
     def base(self, ci):
         c = self.csets[ci]
         while isinstance(c, dict):
-            c = self.csets[c["molar_copy_of"]]
+            c = self.csets[c["molar_copy_of"] if "molar_copy_of" in c else c["replicate_of"]]
         return c
 
     def pv_info(self, i):
@@ -294,6 +298,10 @@ class Meta:
         mi, name = self.base(ci)
         for s in self.membranes[mi]["sets"]:
             if s["name"] == name:
+                c = self.csets[ci]
+                if isinstance(c, dict) and "replicate_of" in c:
+                    s = dict(s)
+                    s["n_curves"], s["temps"] = 2, [s["temps"][0]]      # two curves, one temperature
                 return s
         raise KeyError(name)
 
@@ -427,7 +435,7 @@ def g_nonideal_curve(o, M):
     i, ci, info, s = pk
     multi = s["n_curves"] > 1
     T = o.choice(s["temps"]) if o.random() < 0.35 else round(o.choice(s["temps"]) + o.uniform(-3, 8), 2)
-    steps = o.randint(1, 10)
+    steps = o.randint(1, 10) if o.random() < 0.9 else 0
     x0 = wg.rnd(o, s["x_lo"], s["x_hi"], 5)
     dx = wg.rnd(o, 0.002, 0.03, 4) * o.choice([1, -1])
     if o.random() < 0.12:
@@ -805,7 +813,8 @@ def execute(ctx, plan, stats=None, extra_oracles=None, prop="C20", names=None):
         # call of the history is made once more at the end (and a few default-argument calls are added);
         # each must still equal its fresh-state outcome.  Only a differing outcome is a violation.
         truncated = bool(trace) and trace[-1].get("outcome") == "budget"
-        if (drifted or any(r.get("interp_changed") for r in trace)) and not truncated:
+        paranoid = plan.get("run", 0) % 16 == 3     # witness calls also without any observed drift, in 1 of 16 runs
+        if (drifted or paranoid or any(r.get("interp_changed") for r in trace)) and not truncated:
             st["witness_runs"] = st.get("witness_runs", 0) + 1
             wit = [(dict(op, id="witness-%s" % op.get("id")), ro) for op, ro in executed]
             for wop in witness_battery(plan):
@@ -870,8 +879,19 @@ def witness_battery(plan):
         if m.get("has_ideal") and (m.get("ideal_temps") or []):
             ops.append({"fn": "partial_fluxes", "id": "battery", "args": {"pv": ref("pvs", i), "feed_temperature": m["ideal_temps"][0] + 2.5,
                                                                             "composition": {"$new_comp": [0.35, "weight"]}}})
+            # both permeances zero: 0/0 inside the solver (numpy 'invalid'), by default a nan that Composition rejects
+            ops.append({"fn": "partial_fluxes", "id": "battery", "args": {"pv": ref("pvs", i), "feed_temperature": m["ideal_temps"][0],
+                                                                            "composition": {"$new_comp": [0.5, "weight"]},
+                                                                            "first_component_permeance": {"$new_perm": [0.0, None]},
+                                                                            "second_component_permeance": {"$new_perm": [0.0, None]}}})
     for k in range(min(2, len(spec.get("measurements", [])))):
         ops.append({"fn": "fit", "id": "battery", "args": {"data": ref("measurements", k), "n": 1, "m": 0}})
+        ops.append({"fn": "fit", "id": "battery", "args": {"data": ref("measurements", k)}})
+    # evaluations that overflow (exp -> inf), underflow and produce 0*inf: outcomes depend on numpy's error state
+    ops.append({"fn": "fn_new_call", "id": "battery", "spec": {"n": 1, "m": 0, "alpha": 0.0, "a": [900.0], "b": [0.0], "array": True},
+                "grid_args": [[1.0, 300.0], [0.5, 300.0]]})
+    ops.append({"fn": "fn_new_call", "id": "battery", "spec": {"n": 1, "m": 0, "alpha": 2.5, "a": [-900.0], "b": [-300000.0], "array": False},
+                "grid_args": [[1.0, 300.0], [0.0, 300.0], [1, 350]]})
     return ops
 
 
@@ -973,7 +993,7 @@ def prune_world(plan):
         for i in list(need["curve_sets"]):
             c = spec["curve_sets"][i]
             if isinstance(c, dict):
-                need["curve_sets"].add(c["molar_copy_of"])
+                need["curve_sets"].add(c["molar_copy_of"] if "molar_copy_of" in c else c["replicate_of"])
             else:
                 need["membranes"].add(c[0])
         for i in list(need["membranes"]):
@@ -1033,7 +1053,9 @@ def prune_world(plan):
             ms["from_set"] = remap["curve_sets"][ms["from_set"]]
     cs = []
     for c in new["curve_sets"]:
-        if isinstance(c, dict):
+        if isinstance(c, dict) and "replicate_of" in c:
+            cs.append(dict(c, replicate_of=remap["curve_sets"][c["replicate_of"]]))
+        elif isinstance(c, dict):
             cs.append({"molar_copy_of": remap["curve_sets"][c["molar_copy_of"]]})
         else:
             cs.append([remap["membranes"][c[0]], c[1]])
